@@ -300,14 +300,25 @@ def id_use(chk, program):
     for meth in ('encode_ebyte', 'encode_usb', 'encode_yacht_devices'):
         fn = program.fn('encoder', f"NMEA2000Encoder.{meth}")
         direct = [n for n in ast.walk(fn) if isinstance(n, ast.Call) and isinstance(n.func, ast.Attribute) and n.func.attr == '_build_header']
-        chk.check(len(direct) == 1, 'ID-USE', f"{meth}::built-afresh", file=ENC, line=fn.lineno, func=meth,
-                  expected='the writer itself calls _build_header once per message', found=f"{len(direct)} direct calls",
-                  detail='' if len(direct) == 1 else 'an identifier obtained through another function may be cached across messages (e.g. keyed without the destination)')
         try:
             res, rec = Wr.encode_with(program, meth, [Wr.frame_bytes(8)])
         except (Ab.Unknown, Ab.RaiseSignal) as u:
             chk.unknown('ID-USE', meth, f"writer not interpretable: {u}", ENC, fn.lineno)
             continue
+        if len(direct) == 1:
+            chk.check(True, 'ID-USE', f"{meth}::built-afresh", file=ENC, line=fn.lineno, func=meth, expected='the writer itself calls _build_header once per message', found='1 direct call')
+        else:
+            # the identifier comes through helpers: the writer was interpreted on an encoder object with no state but the sequence counter (a helper
+            # reading a cache is not interpretable there); the helpers must not be wrapped (a memoising decorator is invisible to the interpreter)
+            ecls = program.cls('encoder', 'NMEA2000Encoder')
+            wrapped = [n.name for n in ecls.body if isinstance(n, (ast.FunctionDef, ast.AsyncFunctionDef))
+                       and any(ast.unparse(d) not in ('staticmethod', 'classmethod') for d in n.decorator_list)]
+            if wrapped:
+                chk.unknown('ID-USE', f"{meth}::built-afresh", f"no direct call of _build_header and decorated methods in the class: {wrapped}", ENC, fn.lineno)
+            else:
+                chk.check(rec.header_calls == 1, 'ID-USE', f"{meth}::built-afresh", file=ENC, line=fn.lineno, func=meth,
+                          expected='_build_header called once while one message is written (interpreted on an encoder without cached state)',
+                          found=f"{rec.header_calls} calls", detail='' if rec.header_calls == 1 else 'the identifier written is not the one built for this message')
         args = rec.header_arg
         ok = args is not None and len(args) == 4 and all(isinstance(a, Ab.AInt) and a.vec() is not None and B.trim(a.vec()) == [(n, k) for k in range(w)] for a, (n, w) in zip(args, want))
         chk.check(ok, 'ID-USE', f"{meth}::identifier-of-this-message", file=ENC, line=fn.lineno, func=meth,
